@@ -123,3 +123,20 @@ package controllers
 //@   exit assert [errorForgets] res == SyncStateError ==> r.currentConfig == nil
 //@   exit assert [errorRetried] res == SyncStateError ==> result1 != nil
 //@   exit assert [remembered] res != SyncStateError ==> r.currentConfig == cfg
+
+// PoolReconciler.Reconcile (abstracted mode): the handler gets the pools of the freshly parsed configuration; the
+// configuration is remembered only when the handler did not fail (an error leaves the previous one so that the retry is
+// not mistaken for "unchanged"); a service reload is forced only on the handler's request
+//@ func field:go.universe.tf/metallb/internal/k8s/controllers.PoolReconciler.Handler
+//@   trusted
+//@   modifies nothing
+//@ func field:go.universe.tf/metallb/internal/k8s/controllers.PoolReconciler.ForceReload
+//@   trusted
+//@   modifies nothing
+//@ func (*PoolReconciler).Reconcile
+//@   abstract
+//@   requires [errVar] errRetry != nil
+//@   assert before Handler: [handsParsedPools] arg1 == cfg.Pools
+//@   assert before ForceReload: [onRequest] res == SyncStateReprocessAll
+//@   exit assert [errorRetried] res == SyncStateError ==> result1 != nil
+//@   exit assert [remembered] res == SyncStateSuccess || res == SyncStateReprocessAll ==> r.currentConfig == cfg
